@@ -22,7 +22,7 @@ RULE = ("generated signatures (<= 5 parameters over positional-only / positional
 ASSUMPTIONS = ["payload values already have the annotated types (coercion is not part of the property)", "Pydantic v1 converter not exercised",
                "payload keys never collide with dependency parameter names"]
 EVAL_COUNTER = "bindings_judged"
-REQUIRED = ["bindings_judged", "shape_empty_string", "shape_missing_required", "shape_extra", "converters_compared", "outputs_roundtripped", "e2e_default_converter", "bindings_with_off_type_default_used", "rewritten_bucket_steps"]
+REQUIRED = ["bindings_judged", "shape_empty_string", "shape_missing_required", "shape_extra", "converters_compared", "outputs_roundtripped", "e2e_default_converter", "bindings_with_off_type_default_used", "rewritten_bucket_steps", "positional_catch_all_jobs"]
 CASE_TIMEOUT = 120
 
 
@@ -340,8 +340,28 @@ async def e2e(loop, case, out, stats, fps):
         async def catch_mixed(a: int = 1, *rest, b: int = 2, **extras):
             catch_calls.append(("catch_mixed", (a, b) + rest, extras))
 
+        rest_calls = []
+
+        async def catch_rest(*rest):
+            # (no named parameter in front: `f(a, *rest)` with extra entries is the known BasicConverter finding)
+            rest_calls.append(rest)
+
         rb.actor(name="catch_all")(catch_all)
         rb.actor(name="catch_mixed")(catch_mixed)
+        rb.actor(name="catch_rest")(catch_rest)
+        # entries without a parameter of their name go to *rest in the order the producer wrote them (dicts and dataclasses
+        # alike): not alphabetical here
+        import dataclasses as _dc
+
+        @_dc.dataclass
+        class Box:
+            width: int
+            height: int
+            depth: int
+
+        rest_jobs = [({"width": 3, "height": 4, "depth": 5}, (3, 4, 5)), ({"zeta": "z", "alpha": "a", "mid": "m"}, ("z", "a", "m")), (Box(3, 4, 5), (3, 4, 5))]
+        for ri, (ra, _want) in enumerate(rest_jobs):
+            await Job("catch_rest", id_=f"rest{ri}", args=ra, store_result=False, _connection=conn).enqueue()
         n_catch = 0
         for name in ("catch_all", "catch_mixed"):
             for kw in ({}, {"use_args_bucketer": False}, {"args": {}}):
@@ -355,7 +375,7 @@ async def e2e(loop, case, out, stats, fps):
             chain_calls[cname] = []
             register_bucket_chain_actor(rt, cname, conn, chain_calls[cname], f"{cname}-args")
             await Job(cname, id_=f"{cname}-1", args={"step": 1, "note": "first", "extra": 7}, args_id=f"{cname}-args", use_args_bucketer=True, store_result=False, _connection=conn).enqueue()
-        w = Worker(routers=[r, rb], messages_limit=len(plans) + n_catch + 4, tasks_limit=1, handle_signals=[], _connection=conn)
+        w = Worker(routers=[r, rb], messages_limit=len(plans) + n_catch + 4 + len(rest_jobs), tasks_limit=1, handle_signals=[], _connection=conn)
         try:
             await asyncio.wait_for(w.run(), 60)
         except asyncio.TimeoutError:
@@ -366,6 +386,10 @@ async def e2e(loop, case, out, stats, fps):
             want = [{"step": 1, "note": "first", "extra": 7}, {"step": 2, "note": "none", "extra": None}]
             if calls_ != want:
                 out.append(V("bound_wrong" if len(calls_) == 2 else "spurious_failure", f"{cname.split('_')[1]}/rewritten-argument-bucket", f"two steps sharing the argument bucket id {cname}-args (rewritten by step 1): called with {calls_}, expected {want}"))
+        stats["bindings_judged"] += len(rest_jobs)
+        stats["positional_catch_all_jobs"] += len(rest_jobs)
+        if rest_calls != [w_ for _a, w_ in rest_jobs]:
+            out.append(V("extras_misplaced", "basic/var_args-order", f"jobs for f(*rest) with entries {[(_a if isinstance(_a, dict) else 'Box(3, 4, 5)') for _a, _w in rest_jobs]}: called with {rest_calls}, expected {[w_ for _a, w_ in rest_jobs]}"))
         stats["catch_all_noargs_jobs"] += n_catch
         if len(catch_calls) != n_catch:
             out.append(V("spurious_failure", "basic/noargs/catch-all", f"{n_catch} argument-less jobs for catch-all actors, {len(catch_calls)} executions"))
